@@ -525,10 +525,13 @@ func init() {
 		}
 		// large buckets: above the 1 MiB chunk in which singleWidthIndex.Unmarshal reads a bucket
 		// (kind idxbig; the extracted code evaluates only the layer-B expectation for these)
-		bigs := []c11BigDesc{{c11BigBucket{0x12, 32, 30000}, c11BigBucket{0x11, 20, 500}, 40}}
+		// quick: one 2.4 MB bucket -- the chunked read of Unmarshal (1 MiB, then doubling) grows its buffer
+		// twice, so both growth steps are exercised
+		bigs := []c11BigDesc{{c11BigBucket{0x12, 32, 60000}, c11BigBucket{0x11, 20, 500}, 40}}
 		if c.Thorough {
 			bigs = append(bigs,
-				c11BigDesc{c11BigBucket{0x12, 32, 60000}, c11BigBucket{0x13, 64, 3}, 0},      // 2.4 MB bucket
+				c11BigDesc{c11BigBucket{0x12, 32, 30000}, c11BigBucket{0x11, 20, 500}, 40},   // 1.2 MB bucket: one growth step
+				c11BigDesc{c11BigBucket{0x12, 32, 110000}, c11BigBucket{0x13, 64, 3}, 0},     // 4.4 MB bucket: three growth steps
 				c11BigDesc{c11BigBucket{0x12, 32, 26214}, c11BigBucket{0x11, 20, 1}, 0},      // last bucket below 1 MiB
 				c11BigDesc{c11BigBucket{0x12, 32, 26215}, c11BigBucket{0x11, 20, 1}, 0},      // first above
 				c11BigDesc{c11BigBucket{0x1b, 8, 65535}, c11BigBucket{0x11, 20, 2}, 0},       // 1 MiB - 16 bytes
